@@ -50,10 +50,14 @@ def run(sid, tier='quick'):
     rc, out = sh(f'git apply {d}/patch.diff', '/repo')
     assert rc == 0, out
     t = time.time()
+    ev = os.path.join(V, 'evidence', prop + '.json')
+    saved = open(ev).read() if os.path.exists(ev) else None
     try:
         rc, out = sh(f'./check {prop} --tier {tier}', V, 3600)
     finally:
         sh('git checkout -- .', '/repo')
+        if saved is not None:          # evidence describes the unchanged tree, never a seeded run
+            open(ev, 'w').write(saved)
     lines = [l for l in out.splitlines() if l.startswith(('VIOLATION', 'KNOWN', prop))]
     res = dict(check=f'./check {prop} --tier {tier}', exit=rc, seconds=round(time.time() - t), output=lines[-6:],
                caught=(rc == 1 and any(l.startswith('VIOLATION') for l in lines)),
